@@ -112,6 +112,7 @@ func (f *Feed) remove(sub *feedSub) {
 		return
 	}
 	f.mu.Unlock()
+	verifYield(0)
 
 	select {
 	case f.removeSub <- ch:
@@ -130,6 +131,7 @@ func (f *Feed) Send(value interface{}) (nsent int) {
 
 	f.once.Do(f.init)
 	<-f.sendLock
+	verifYield(1)
 
 	// Add new cases from the inbox after taking the send lock.
 	f.mu.Lock()
@@ -141,6 +143,7 @@ func (f *Feed) Send(value interface{}) (nsent int) {
 		panic(feedTypeError{op: "Send", got: rvalue.Type(), want: f.etype})
 	}
 	f.mu.Unlock()
+	verifYield(2)
 
 	// Set the sent value on all channels.
 	for i := firstSubSendCase; i < len(f.sendCases); i++ {
@@ -163,6 +166,7 @@ func (f *Feed) Send(value interface{}) (nsent int) {
 		if len(cases) == firstSubSendCase {
 			break
 		}
+		verifYield(3)
 		// Select on all the receivers, waiting for them to unblock.
 		chosen, recv, _ := reflect.Select(cases)
 		if chosen == 0 /* <-f.removeSub */ {
@@ -177,6 +181,7 @@ func (f *Feed) Send(value interface{}) (nsent int) {
 		}
 	}
 
+	verifYield(4)
 	// Forget about the sent value and hand off the send lock.
 	for i := firstSubSendCase; i < len(f.sendCases); i++ {
 		f.sendCases[i].Send = reflect.Value{}
